@@ -144,13 +144,15 @@ def setup_mj_rep(m):
         o, D, NW, DW = mj_obj(I, m); PW = z3.Function("negbin_p", z3.IntSort(), z3.RealSort()); o.attrs["weekday_demand_negbin_p"] = SArr((7,), lambda idx: PW(toz3(idx[0])))
         for nm in ("state", "action", "random_event"): o.attrs[f"{nm}_component_lookup"] = I.call(I.getattr(o, f"_construct_{nm}_component_lookup"), [], {})
         w, qn, d = z3.Ints("weekday order demand"); rec = [z3.Int(f"r{i}") for i in range(m)]; stock = [z3.Int(f"s{i}") for i in range(m - 1)]
-        I.assume(z3.And(w >= 0, w <= 6, qn >= 0, d >= 0, d < D, *[r >= 0 for r in rec]))
+        I.assume(z3.And(w >= 0, w <= 6, qn >= 0, d >= 0, d <= D, *[r >= 0 for r in rec]))          # every listed demand, INCLUDING the censored last bin d == max_demand
         return Ctx(self=o, _args=[arr_from_list([w] + stock), arr_from_list([qn]), arr_from_list([d] + rec)], m=m, qn=qn, rec=rec, d=d, w=w, D=D, NW=NW, PW=PW,
                    c0=[z3.Real(f"c0_{i}") for i in range(m - 1)], c1=[z3.Real(f"c1_{i}") for i in range(m - 1)], I=I)
     return setup
 contract(f"{MJ}.random_event_probability", scenarios=[(f"m{m}.", setup_mj_rep(m)) for m in range(1, 6)],
     ensures={"censored_negbin_of_the_weekday_times_multinomial_split_of_the_order": lambda c, q:
-                 scalar(c.result) == nb(c, c.d) * z3.If(sum(c.rec[1:], c.rec[0]) == c.qn, mult_spec(c), z3.RealVal(0))})
+                 # demand factor: the negative binomial pmf below max_demand, all remaining mass (1 - sum of the bins below) AT max_demand
+                 (q.hyps.append(mj_unroll(c)),
+                  scalar(c.result) == z3.If(c.d < c.D, nb(c, c.d), 1 - R.mk("sum", c.D, lambda k: nb(c, k))) * z3.If(sum(c.rec[1:], c.rec[0]) == c.qn, mult_spec(c), z3.RealVal(0)))[1]})
 
 # ------------------------------------------------------------------ Hendrix: initial value = expected one-step sales revenue under the event distribution
 HX = "mdpax.problems.perishable_inventory.hendrix_two_product.HendrixTwoProductPerishable"
